@@ -60,6 +60,18 @@ class NodeClf(BaseEstimator):
             NodeClf.table[key] = v
         return NodeClf.table[key]
 
+    def decision_function(self, X):
+        # scores of another scale than the probabilities (SVC with Platt scaling, bagged votes...): nothing ties
+        # their sign to p > 0.5, so nothing may be routed by them
+        C = NodeClf.C
+        out = []
+        for r in X[:, 0]:
+            key = ("df", getattr(self, "id_", -1), repr(float(r)))
+            if key not in NodeClf.table:
+                NodeClf.table[key] = C.real(f"df_{getattr(self, 'id_', 'x')}_{len(NodeClf.table)}") if C.symbolic else (-1.0) ** len(NodeClf.table) * 0.75
+            out.append(NodeClf.table[key])
+        return sx.sarr(out) if C.symbolic else numpy.array(out, dtype=float)
+
     def predict_proba(self, X):
         rows = [[1 - self.p(r), self.p(r)] for r in X[:, 0]]
         return sx.sarr(rows) if NodeClf.C.symbolic else numpy.array(rows, dtype=float).reshape(-1, 2)
@@ -181,8 +193,10 @@ def configs(tier):
                     for algo in ("auto", "none"):
                         if tier == "quick" and (labels, algo) not in ((0, "auto"), (1, "none"), (2, "auto")):
                             continue
-                        if max_depth == 4 and ((msl, mss) != (1, 2) or labels != 0):
+                        if max_depth == 4 and ((msl, mss) != (1, 2) or labels != 0 or algo != "none"):
                             continue  # depth 4 multiplies the paths: one label pair, the least restrictive stopping rules
+                        if max_depth == 3 and msl == 2 and labels != 0:
+                            continue
                         out.append(dict(n=3, query=1, labels=labels, max_depth=max_depth, min_samples_leaf=msl, min_samples_split=mss, algo=algo))
                         if tier != "quick" and max_depth == 2 and msl == 1 and mss == 2 and labels == 0 and algo == "auto":
                             # 4 rows: every split of 4 rows at up to 3 nodes (the path count grows as 2^(rows x nodes))
